@@ -145,6 +145,11 @@ def build_layout(rng, seq):
         htxt = ">" + "".join(rng.choice("abcXYZ |_-.:*>0123456789ACDEFGHIKLMNPQRSTVWY") for _ in range(hlen))
         if rng.random() < 0.1:
             htxt = ">" + " " * rng.randint(1, 3)          # a header that is only the marker (and blanks)
+        elif rng.random() < 0.2:
+            # headers as databases write them (PIR / NBRF, UniProt, NCBI, PDB): a header is a header, whatever it says
+            htxt = rng.choice([">P1;CRAB_ANAPL", ">F1;XYZ", ">DL;A12345", ">N1;seq", ">sp|P37840|SYUA_HUMAN Alpha-synuclein OS=Homo sapiens",
+                               ">gi|4507109|ref|NP_000336.1| alpha-synuclein [Homo sapiens]", ">1XQ8:A|PDBID|CHAIN|SEQUENCE", ">P53_HUMAN R213* truncation",
+                               ">seq1 len=140 // draft", ">tr|A0A024|A0A024_HUMAN *", ">ENA|CAA12345|CAA12345.1 ; comment"])
         if head == "after_blank":
             lines = ["", "  "] + [htxt] + lines
         else:
@@ -187,6 +192,12 @@ def corruptions(rng, text, n):
     if body_end > 0:
         out.append(("replace", body_end - 1, "*", text[:body_end - 1] + "*" + text[body_end:]))
     out.append(("insert", len(text), ">late header", text + "\n>late header\n"))
+    # a whole foreign LINE between or after the sequence lines (record terminators and keywords of other formats)
+    mids = [s_ for s_ in starts if s_ > 0]
+    for line_ in rng.sample(["//", "///", "END", ".", "--", "ORIGIN", "//\nACDEF", "@", "+"], 3):
+        at = rng.choice(mids) if mids and rng.random() < 0.6 else len(text)
+        nl_ = "\n" if not text[:at].endswith(("\n", "\r")) and at > 0 else ""
+        out.append(("insert", at, line_, text[:at] + nl_ + line_ + "\n" + text[at:]))
     return out
 
 
